@@ -150,7 +150,13 @@ def tri : List Sp → List (Sp × Sp)
   | [] => []
   | a :: rest => ((a :: rest).map fun b => (a, b)) ++ tri rest
 
-def sortSp (l : List Sp) : List Sp := l.mergeSort (fun a b => decide (a ≤ b))
+/-- insertion into a sorted list of labels (structural, so that the kernel can evaluate it) -/
+def insertSp (x : Sp) : List Sp → List Sp
+  | [] => [x]
+  | y :: ys => if x ≤ y then x :: y :: ys else y :: insertSp x ys
+
+/-- `sorted(...)` on a list of strings -/
+def sortSp (l : List Sp) : List Sp := l.foldr insertSp []
 
 /-- `_writePairPotentials`: header uses the declared potential's own label order, or the sorted key for the null function -/
 def tabeamPairs (els : List El) (pairs : List PairDecl) (nr : Nat) (dr : Rat) : List TBlock :=
@@ -182,7 +188,7 @@ structure Sheet where
   rows : List (Rat × List Slot)
 deriving DecidableEq, Repr
 
-def sortStr (l : List String) : List String := l.mergeSort (fun a b => decide (a ≤ b))
+def sortStr (l : List String) : List String := sortSp l
 
 /-- `_populate_worksheet`: `column_dict[label](r)` for each label in `column_keys`, one row per first-column value -/
 def sheet (name first : String) (n : Nat) (cut : Rat) (cols : List (String × Fid)) : Sheet :=
